@@ -96,6 +96,11 @@ def systematic(rng, fam):
                 r = gen.evpn_route(rng, t)
                 yield {'afi_safi': [25, 70], 'nexthop': '10.0.0.1', 'nlri': [r, gen.evpn_route(rng, t)]}, False
                 yield {'afi_safi': [25, 70], 'withdraw': [r]}, True
+        for _ in range(60):
+            # IP prefix routes (type 5), IPv4 and IPv6, in the encoder's own input shape
+            r = gen.evpn_route5c(rng)
+            yield {'afi_safi': [25, 70], 'nexthop': '10.0.0.1', 'nlri': [r, gen.evpn_route(rng, 2)]}, False
+            yield {'afi_safi': [25, 70], 'withdraw': [r]}, True
     if fam == 'flowspec':
         for c in gen.FS_NUMERIC:
             for op in ('=', '>', '<', '>=', '<='):
